@@ -32,7 +32,7 @@ func (e *Engine) verifyFunction(fn *ssa.Function, ct *Contract, sweepOnly bool) 
 	key := fnKey(fn, e.home)
 	vc := newVC(e, key)
 	x := &Exec{eng: e, vc: vc, top: fn, contract: ct, heapSorts: map[string]Sort{}, written: map[string]bool{},
-		nilSeen: map[string]*ssa.BasicBlock{}, arith: "math", usedModels: map[string]bool{}, poolVals: map[string]bool{}}
+		nilSeen: map[string]*ssa.BasicBlock{}, arith: "math", usedModels: map[string]bool{}, poolVals: map[string]bool{}, matched: map[string]bool{}}
 	x.assumeNil = sweepOnly && ct == nil
 	if ct != nil {
 		if v := ct.Opts["arith"]; v != "" {
@@ -149,6 +149,14 @@ func (e *Engine) verifyFunction(fn *ssa.Function, ct *Contract, sweepOnly bool) 
 		vc.AddObligation(&Obligation{Name: "cover:exit", Kind: "cover", Desc: "function exit reachable under the preconditions (vacuity guard)", Cond: exit.pc, Goal: TFalse, Cover: true})
 	} else {
 		vc.AddObligation(&Obligation{Name: "cover:entry", Kind: "cover", Desc: "preconditions satisfiable (vacuity guard)", Cond: TTrue, Goal: TFalse, Cover: true, prefix: 0})
+	}
+	if ct != nil {
+		// vacuity guard: every call pattern of the contract must match a call site
+		for _, cl := range append(append([]*Clause{}, ct.Tracks...), ct.AtCalls...) {
+			if !x.matched[cl.Callee] {
+				x.specErrors = append(x.specErrors, fmt.Sprintf("%s: call pattern %q matches no call site (vacuous clause)", key, cl.Callee))
+			}
+		}
 	}
 	res.Obls = vc.obls
 	res.SpecErrors = x.specErrors
